@@ -63,7 +63,18 @@ CHECKS = {
    note='Scalars and points outside the alphabets on real-size curves are not covered; window wider than the digit, Barrett reduction and BN_CC_MULL_DIV off are outside; affine + interleaved twin does not link (reported as skipped); see harness/C02/NOTES.md.'), 'C12': dict(engine='E4-enum', category='exploration', design='DESIGN.md 6, 9/C12, harness/C12/NOTES.md',
    technique='small-scope exhaustive enumeration: every byte string over a per-function alphabet up to a length bound as an exact-size heap copy (ASan redzones / PROT_NONE guard pages at both ends), every output capacity 0..need+1, canary-checked output arenas, CPU watchdog',
    text='Base64, hex, all num2str/str2num/strh2num functions, UTF-8, ASN.1, bencode (incl. deep nesting), XML extraction and entity coding, INI parse/generate/set, buf2args, line iteration, the mem_* search/replace helpers and CRC are called on every input of their scope with every capacity: no read outside the input, no write outside the capacity, the reported size is sufficient, an exactly sized buffer is accepted, the call returns.',
-   note='Inputs outside the per-target alphabets/lengths are not covered; returned extents that the function only reports (asn_parse data_size) are not judged; see harness/C12/NOTES.md for the table and the 11 fixes it led to.'),
+   note='Inputs outside the per-target alphabets/lengths are not covered; returned extents that the function only reports (asn_parse data_size) are not judged; see harness/C12/NOTES.md for the table and the 11 fixes it led to.'), 'C01': dict(engine='E4-enum', category='exploration', design='DESIGN.md 6, 7, 9/C01, harness/C01/NOTES.md',
+   technique='small-scope exhaustive enumeration of operand values (8-bit digits: all 1x2-digit pairs, all values < 2^16 for unary ops, every modulus and residue; thorough: all 2^32 pairs) and a structural digit alphabet at every width, against independent reference integers, across the digit-width x multiply/divide-routine x compiler x optimisation matrix, with stale-storage and aliasing variants of every call',
+   text='Every listed bignum operation is called on every operand tuple of the scope with capacities from minimal to 4 digits, once with 0xA5 and once with 0x00 in all dead storage, in non-aliased and every permitted aliased form, in 9 (quick) / 54+ (thorough) builds: rc == 0 with a value, carry, borrow or remainder different from the reference is a violation, as are crashes, wild memory sizes and buffer overruns; NAF/JSF outputs are re-evaluated and checked for their defining form.',
+   note='Operand values outside the alphabets at >= 16-bit digits are not covered; a non-zero rc is always accepted; Barrett, bn_egcd, bn_mod_inv3, bn_sqrt4 are outside the property; see harness/C01/NOTES.md.'),
+ 'C03': dict(engine='E4-enum', category='exploration', design='DESIGN.md 6, 7, 9/C03, harness/C03/NOTES.md',
+   technique='exhaustive enumeration on tiny prime-order curves: every (private key, hash integer 0..2n, nonce 0..2n) through the signer, the full verifier truth table over all (Q, e, r, s) against an independent SEC 1 / GOST R 34.10 reference with brute-force point arithmetic; byte entry points with every hash length and every single-bit / boundary mutation under ASan; several build configurations',
+   text='For both algorithm ids: whenever signing succeeds the signature verifies with the public-key verifier, the private-key verifier and the reference verifier; reference-made signatures are accepted; the accept/reject decision of both verifiers equals the standard for every tuple of the truth table (r, s in [0, n+1], all group points and off-curve points as Q); be/le byte entry points with hashes shorter, equal and longer than the curve size.',
+   note='Real-size curves only through the repository vectors and mutation alphabets; "never reports success when an internal computation failed" is checked only where valid inputs provoke a failure (nonce 0, key 0): no fault hook was added to the headers; little-endian and GOST hashes longer than the field have no standard reading and are checked for self-consistency only.'),
+ 'C09': dict(engine='E4-enum', category='exploration', design='DESIGN.md 6, 7, 9/C09, harness/C09/NOTES.md',
+   technique='exhaustive enumeration on tiny curves (all points x 4 encodings x 2 byte orders; every byte string of every accepted length on one-byte fields; all seeds, private keys and (d1, d2) pairs) plus the 32 built-in curves, against a brute-force group oracle, exact-size heap buffers under ASan',
+   text='export then import is the identity for every point and form; import with validation accepts exactly the encodings of the neutral element or of on-curve points annihilated by n with coordinates < p and a known prefix, compressed input recovers the root with the requested parity; key generation, public-key recovery and Diffie-Hellman equal the reference and DH is symmetric; every byte entry point stays inside the sizes passed.',
+   note='Hybrid prefixes 06/07 with a wrong parity bit are accepted by the library: observed, not enforced (the statement does not settle it); cofactor DH on points outside <G> observed only; EC_DISABLE_PUB_KEY_CHK builds are judged on round trips and memory only.'),
 }
 
 REASON_WIP = 'check not finished yet in this session (harness under construction; see DESIGN.md section 13)'
